@@ -460,9 +460,10 @@ def clusterImpersonationOK (trusted : List (String × String)) (pods : List Pod)
 structure Comp where
   pods   : List Pod
   synced : Bool := true
+  hidden : List String := []   -- namespaces the client's object filter (discovery selectors) hides
   deriving DecidableEq, Repr
 
-def Comp.view (c : Comp) : List Pod := if c.synced then c.pods else []
+def Comp.view (c : Comp) : List Pod := if c.synced then c.pods.filter (fun p => !c.hidden.contains p.ns) else []
 
 /-- What the multicluster `Component` (pkg/kube/multicluster/component.go) holds for one cluster ID:
     `cur` = `clusters[id]`, `swap` = `pendingSwaps[id]` = (old component if any, new component). -/
@@ -484,12 +485,14 @@ def Slot.active (s : Slot) : Option (List Pod) :=
   | none => s.cur.map Comp.view
 
 /-- `clusterAdded` (and the new informer syncing) -/
-def Slot.added (s : Slot) (pods : List Pod) : Slot := { s with cur := some { pods := pods } }
+def Slot.added (s : Slot) (pods : List Pod) (hidden : List String := []) : Slot :=
+  { s with cur := some { pods := pods, hidden := hidden } }
 
 /-- `clusterUpdated`: a new, not yet synced component replaces `clusters[id]`; the previous one is
     kept in a pending swap -/
-def Slot.updated (s : Slot) (pods : List Pod) : Slot :=
-  { cur := some { pods := pods, synced := false }, swap := some (s.cur, { pods := pods, synced := false }) }
+def Slot.updated (s : Slot) (pods : List Pod) (hidden : List String := []) : Slot :=
+  { cur := some { pods := pods, synced := false, hidden := hidden },
+    swap := some (s.cur, { pods := pods, synced := false, hidden := hidden }) }
 
 /-- the new component synced and the controller noticed (`pendingSwap.HasSynced`): swap finalized -/
 def Slot.synced (s : Slot) : Slot :=
